@@ -182,20 +182,39 @@ func boundaryStreams(rng *rand.Rand, dp *DriverPool) (items []struct {
 	name            string
 	stream, content []byte
 }, err error) {
-	add := func(name string, specs []string, content []byte) error {
-		rep, err := dp.Ask("xzbuild 4 0 B 0 1 1 20 " + strings.Join(specs, " ") + " eos/-/-")
+	specs, err := boundarySpecs(rng, dp.Ask)
+	if err != nil {
+		return nil, err
+	}
+	for _, sp := range specs {
+		rep, err := dp.Ask("xzbuild 4 0 B 0 1 1 20 " + strings.Join(sp.specs, " ") + " eos/-/-")
 		if err != nil {
-			return err
+			return nil, err
 		}
 		if rep == "bad-op" {
-			return fmt.Errorf("xzbuild rejected a boundary stream")
+			return nil, fmt.Errorf("xzbuild rejected a boundary stream")
 		}
 		items = append(items, struct {
 			name            string
 			stream, content []byte
-		}{name, unhxe(rep), content})
+		}{sp.name, unhxe(rep), sp.content})
+	}
+	return items, nil
+}
+
+type boundarySpec struct {
+	name    string
+	specs   []string
+	content []byte
+}
+
+// boundarySpecs: chunk lists (spec-encoder notation) at the limits of the chunk header fields
+func boundarySpecs(rng *rand.Rand, ask func(string) (string, error)) (items []boundarySpec, err error) {
+	add := func(name string, specs []string, content []byte) error {
+		items = append(items, boundarySpec{name, specs, content})
 		return nil
 	}
+	dp := struct{ Ask func(string) (string, error) }{ask}
 	// (1) compressed size exactly 65536: K incompressible literals, K adjusted until the size field is 0xffff
 	lits := make([]byte, 70000)
 	rng.Read(lits)
@@ -266,6 +285,23 @@ func boundaryStreams(rng *rand.Rand, dp *DriverPool) (items []struct {
 	raw := make([]byte, 65536)
 	rng.Read(raw)
 	if err := add("boundary/raw-65536", []string{"ud/-/" + hx(raw), "lrn/93/M200,65535.L1"}, append(append(append([]byte{}, raw...), raw[:200]...), 1)); err != nil {
+		return nil, err
+	}
+	// (4) uncompressed size 2^20 + 1 (only bit 20 of the 21-bit size field set), followed by a chunk without reset
+	ops = []string{"L9"}
+	n = 1
+	for n+273 <= 1<<20+1 {
+		ops = append(ops, "M273,0")
+		n += 273
+	}
+	if rest := 1<<20 + 1 - n; rest >= 2 {
+		ops = append(ops, fmt.Sprintf("M%d,0", rest))
+		n += rest
+	} else if rest == 1 {
+		ops = append(ops, "S")
+		n++
+	}
+	if err := add("boundary/uncompressed-size-1MiB+1", []string{"lrnd/93/" + strings.Join(ops, "."), "l/-/M100,0.L3"}, append(bytes.Repeat([]byte{9}, n+100), 3)); err != nil {
 		return nil, err
 	}
 	return items, nil
